@@ -33,7 +33,7 @@ theorem agrees_err_ok {ε : Type} (rel : Err → ε → Prop) (e : Err) (y : Int
 
 /-- the tags that values take in code whose entry arguments are Python ints and that uses `np.int32` /
     `np.int64` internally (`fp_math.py`) -/
-def T3 (t : Ty) : Prop := t = .py ∨ t = .i32 ∨ t = .i64
+@[reducible] def T3 (t : Ty) : Prop := t = .py ∨ t = .i32 ∨ t = .i64
 
 /-- error of `assert np.intN(a) == a` for an operand that does not fit: NumPy raises `OverflowError`
     for a Python int; for a wider NumPy scalar the cast wraps, the comparison fails: `AssertionError` -/
@@ -203,8 +203,8 @@ theorem ge_mk (s t : Ty) (x y : Int) : Num.ge ⟨s, x⟩ ⟨t, y⟩ = decide (x 
 theorem eq_mk (s t : Ty) (x y : Int) : Num.eq ⟨s, x⟩ ⟨t, y⟩ = decide (x = y) := rfl
 theorem ne_mk (s t : Ty) (x y : Int) : Num.ne ⟨s, x⟩ ⟨t, y⟩ = decide (x ≠ y) := rfl
 theorem truthy_mk (t : Ty) (x : Int) : Num.truthy ⟨t, x⟩ = decide (x ≠ 0) := rfl
-theorem min_mk (s t : Ty) (x y : Int) : Num.min ⟨s, x⟩ ⟨t, y⟩ = if y < x then ⟨t, y⟩ else ⟨s, x⟩ := rfl
-theorem max_mk (s t : Ty) (x y : Int) : Num.max ⟨s, x⟩ ⟨t, y⟩ = if y > x then ⟨t, y⟩ else ⟨s, x⟩ := rfl
+theorem min_mk (s t : Ty) (x y : Int) : Num.min ⟨s, x⟩ ⟨t, y⟩ = if y < x then .ok ⟨t, y⟩ else .ok ⟨s, x⟩ := rfl
+theorem max_mk (s t : Ty) (x y : Int) : Num.max ⟨s, x⟩ ⟨t, y⟩ = if y > x then .ok ⟨t, y⟩ else .ok ⟨s, x⟩ := rfl
 
 theorem cast_py (t : Ty) (x : Int) :
     Num.cast t ⟨.py, x⟩ = if t.fits x then .ok ⟨t, x⟩ else .error .overflow := rfl
@@ -307,7 +307,9 @@ open VelaVerif.PyRt in
 /-- side conditions of the rewrite rules: tag disequalities, range facts -/
 macro "py_side" : tactic =>
   `(tactic| first
-    | (simp only [ne_eq, reduceCtorEq, not_false_eq_true, Ty.fits, Ty.bits, T3, or_true, true_or, or_self, wrap] <;> omega)
+    | exact Or.inl rfl
+    | exact trivial
+    | (simp only [ne_eq, reduceCtorEq, not_false_eq_true, Ty.fits, Ty.bits, T3, or_true, true_or, or_self, false_or, or_false, wrap] <;> omega)
     | omega)
 
 open VelaVerif.PyRt in
@@ -343,10 +345,14 @@ elab "py_split1" : tactic => withMainContext do
   match gs with
   | g1 :: g2 :: rest =>
     setGoals [g1]
-    evalTactic (← `(tactic| try simp only [eq_true hsplit, if_true, ite_true, not_true_eq_false, if_false, ite_false]))
+    evalTactic (← `(tactic| try simp only [eq_true hsplit, if_true, ite_true, not_true_eq_false, if_false, ite_false,
+      Int.reduceToNat, Int.reducePow, Int.reduceNeg, Int.mul_one, Int.one_mul, Int.reduceSub, Int.reduceAdd, Int.reduceMul,
+      Int.reduceLT, Int.reduceLE, Int.reduceGT, Int.reduceGE, Int.reduceEq, Int.reduceNe]))
     let r1 ← getGoals
     setGoals [g2]
-    evalTactic (← `(tactic| try simp only [eq_false hsplit, if_false, ite_false, not_false_eq_true, if_true, ite_true]))
+    evalTactic (← `(tactic| try simp only [eq_false hsplit, if_false, ite_false, not_false_eq_true, if_true, ite_true,
+      Int.reduceToNat, Int.reducePow, Int.reduceNeg, Int.mul_one, Int.one_mul, Int.reduceSub, Int.reduceAdd, Int.reduceMul,
+      Int.reduceLT, Int.reduceLE, Int.reduceGT, Int.reduceGE, Int.reduceEq, Int.reduceNe]))
     let r2 ← getGoals
     setGoals (r1 ++ r2 ++ rest)
   | _ => throwError "py_split1: unexpected goals"
